@@ -490,6 +490,39 @@ def rule_error_arity(ctx, repo, graph):
     parameter for raises TypeError - not a ValidationError - in the middle of reporting a script failure."""
     r = ctx.rule('C07.A1', 'every error constructed on the verification path matches the constructor of its class (positional arity, keyword names)', engine='RESOLVE', floor=20)
     from ..model import ClassRef
+    # the state handed to the base constructor is kept on the error object, name for name; the subclasses hand their
+    # keywords on to it
+    base = repo.get_class('bitcoin.core.scripteval.EvalScriptError')
+    if base is not None and '__init__' in base.methods:
+        bi = base.methods['__init__']
+        stores = {}
+        for n in walk_no_nested(bi.node):
+            if isinstance(n, ast.Assign) and len(n.targets) == 1 and isinstance(n.targets[0], ast.Attribute) and norm(n.targets[0].value) == bi.params[0]:
+                stores[n.targets[0].attr] = norm(n.value)
+        for nm in STATE_NAMES:
+            if nm not in bi.params:
+                continue
+            if stores.get(nm) == nm:
+                r.ok('state-kept:%s' % nm, bi.site, 'self.%s = %s' % (nm, nm))
+            elif nm not in stores and not any(isinstance(c_, ast.Call) and norm(c_.func) in ('setattr', 'vars', 'self.__dict__.update') for c_ in ast.walk(bi.node)):
+                r.violated('state-kept:%s' % nm, bi.site, 'EvalScriptError.__init__ does not keep `%s`: every raised evaluation error lacks the captured %s' % (nm, nm), sure=True)
+            elif nm in stores and stores[nm] in STATE_NAMES:
+                r.violated('state-kept:%s' % nm, bi.site, 'EvalScriptError.__init__ keeps `%s` under the name %s' % (stores[nm], nm), sure=True)
+            else:
+                r.undecided('state-kept:%s' % nm, bi.site, 'how `%s` is kept on the error object was not recognised (%s)' % (nm, stores.get(nm)))
+        for ci_ in repo.classes.values():
+            if ci_ is not base and repo.is_subclass(ci_, base) and '__init__' in ci_.methods and ci_.module is base.module:
+                si = ci_.methods['__init__']
+                sup = [c_ for c_ in common.iter_calls(si.node) if isinstance(c_.func, ast.Attribute) and c_.func.attr == '__init__' and norm(c_.func.value).startswith('super(')]
+                fwd = [c_ for c_ in sup if any(k_.arg is None for k_ in c_.keywords)]
+                if si.node.args.kwarg is None:
+                    continue
+                if fwd:
+                    r.ok('state-forwarded:%s' % ci_.name, si.site, 'keywords handed on to the base constructor')
+                elif not sup:
+                    r.violated('state-forwarded:%s' % ci_.name, si.site, '%s.__init__ does not call the base constructor: the error carries no message and none of the captured state' % ci_.name, sure=True)
+                else:
+                    r.violated('state-forwarded:%s' % ci_.name, si.site, '%s.__init__ does not hand its keywords (**%s) on to the base constructor: the captured state is dropped' % (ci_.name, si.node.args.kwarg.arg), sure=True)
     for q in sorted(graph):
         f = repo.functions.get(q)
         if f is None or not f.module.relpath.startswith('bitcoin/'):
